@@ -790,6 +790,21 @@ std::vector<std::string> limit_images(int base, int shortLen)
     if (base == 16) {
         for (char const* s : {"0x", "0X", "0xg", "-0x", "+0x", "0x-1", "0x+1", "0x 1", "0x0x1", "00x1", "x1"}) { push(s); }
     }
+    // long digit runs with ONE or two characters from the code points right next to the digits and letters (added after
+    // seeded breakage c10_eight_digit_block_accepts_colon_range: an 8-characters-at-once fast path tested the high nibble
+    // only and took ':' .. '?' for the digits 10..15; the short pool stops at 7 characters and has no such character)
+    for (char c : {':', ';', '<', '=', '>', '?', '/', '@', '`', '{', '[', 'G', 'g'}) {
+        std::string const cs(1, c);
+        for (char const* head : {"", "-", " +"}) {
+            push(std::string(head) + "1234567" + cs);
+            push(std::string(head) + cs + "1234567");
+            push(std::string(head) + "12" + cs + "30" + cs + "00");
+            push(std::string(head) + "0000000" + cs + "1");
+            push(std::string(head) + "123456" + cs + "8901234");
+            push(std::string(head) + "12345678" + "1234567" + cs);
+            push(std::string(head) + "1010101" + cs + "1");
+        }
+    }
     return out;
 }
 
